@@ -207,7 +207,9 @@ def suite_C06():
         if n > 1:
             out.append([n, 1])
         return out
-    for n in list(range(-3, 130)) + [169, 221, 289, 323, 361, 7919, 7921, 10007, 2**31 - 1, (2**13 - 1) * (2**17 - 1), 1000003 * 1000003]:
+    # strong pseudoprimes (bases 2; 2,3; 2,3,5; 2,3,5,7) and Carmichael numbers: where a probabilistic shortcut would differ from the definition
+    PSEUDO = [2047, 3277, 4033, 4681, 8321, 1373653, 25326001, 3215031751, 561, 1105, 1729, 2465, 2821, 6601, 8911, 41041, 825265, 321197185, 2**32 - 5, 2**32 + 15, 4294967297]
+    for n in list(range(-3, 130)) + [169, 221, 289, 323, 361, 7919, 7921, 10007, 2**31 - 1, (2**13 - 1) * (2**17 - 1), 1000003 * 1000003] + PSEUDO:
         for en, rn in [(lit(n), 's'), (big_repr(n), 'b')]:
             cases.append(('pr%d' % k, 'is_prime(%s)' % en, str(int(isprime(n))), dict(n=n, op='is_prime', repr=rn)))
             k += 1
@@ -351,6 +353,9 @@ def suite_C09():
         ['(0.0/0.0)', '(0.0/0.0)'],
         ['(1+2i)', '(1.0+2.0i)'],
         ['2^63', '9223372036854775808.0'],
+        # subnormal and boundary-exponent floats against the equal exact fractions
+        ['5e-324', '(1/2^1074)'], ['1.1125369292536007e-308', '(1/2^1023)'], ['2.2250738585072014e-308', '(1/2^1022)'], ['1.5e-323', '(3/2^1074)'],
+        ['2.0^(0-60)', '(1/2^60)'], ['2.0^1023', '2^1023'], ['(0-5e-324)', '((0-1)/2^1074)'],
     ]
     cases = []
     k = 0
@@ -485,10 +490,32 @@ def suite_C10():
                         exp = 'ERR'
                     cases.append(('cs%d' % k, '%s[%s]' % (cexpr, lit(i)), exp, dict(kind='consumed stream', len=n, consumed=c, how=how, index=i)))
                     k += 1
+                for lo, hi in itertools.product([None] + list(range(-n - 2, n + 3)), repeat=2):
+                    cases.append(('cz%d' % k, 'list(%s[%s:%s])' % (cexpr, '' if lo is None else lit(lo), '' if hi is None else lit(hi)), '[%s]' % ', '.join(map(str, rest[lo:hi])),
+                                  dict(kind='consumed stream', len=n, consumed=c, how=how, lo=lo, hi=hi)))
+                    k += 1
                 cases.append(('cl%d' % k, 'len(%s)' % cexpr, str(len(rest)), dict(kind='consumed stream', len=n, consumed=c, how=how, what='len')))
                 k += 1
                 cases.append(('cr%d' % k, 'reverse(%s)' % cexpr, '[%s]' % ', '.join(map(str, rest[::-1])), dict(kind='consumed stream', len=n, consumed=c, how=how, what='reverse')))
                 k += 1
+        # ranges with a step (either sign, span not a multiple of the step): every index, last, slices, against the listed elements
+        if n in (2, 3):
+            for rexpr, rpy in [('(1 to 10 by 3)', [1, 4, 7, 10]), ('(1 to 9 by 3)', [1, 4, 7]), ('(0 til 7 by %d)' % n, list(range(0, 7, n))), ('(10 to 1 by (0-3))', [10, 7, 4, 1]),
+                               ('(10 til 2 by (0-%d))' % n, list(range(10, 2, -n))), ('(5 til 5)', []), ('((1 to 10 by 3) drop 1)', [4, 7, 10])]:
+                m = len(rpy)
+                for i in list(range(-m - 3, m + 4)) + [2**62, -2**62]:
+                    try:
+                        exp = str(rpy[i])
+                    except IndexError:
+                        exp = 'ERR'
+                    cases.append(('rg%d' % k, '%s[%s]' % (rexpr, lit(i)), exp, dict(kind='range', range=rexpr, index=i)))
+                    k += 1
+                cases.append(('rl%d' % k, 'last(%s)' % rexpr, str(rpy[-1]) if rpy else 'ERR', dict(kind='range', range=rexpr, accessor='last')))
+                k += 1
+                for lo, hi in itertools.product([None, 0, 1, m, -1, -2, -m - 1], repeat=2):
+                    cases.append(('rs%d' % k, 'list(%s[%s:%s])' % (rexpr, '' if lo is None else lit(lo), '' if hi is None else lit(hi)), '[%s]' % ', '.join(map(str, rpy[lo:hi])),
+                                  dict(kind='range', range=rexpr, lo=lo, hi=hi)))
+                    k += 1
         # the accessor builtins agree with the index / slice expression they stand for (statement of C10), on every kind
         for kind, expr, showel, showlist in kinds + [('stream', sexpr, None, None)]:
             pys = py if kind != 'string' else [chr(97 + i) for i in range(n)]
@@ -803,6 +830,10 @@ def suite_C16():
     for txt, q in [('-0.5', Fraction(-1, 2)), ('-1.5', Fraction(-3, 2)), ('-2.5e1', Fraction(-25)), ('-0.075', Fraction(-3, 40)), ('-12.50e-1', Fraction(-5, 4)),
                    ('-3/4', Fraction(-3, 4)), ('-1.5/-0.5', Fraction(3)), ('+1.5', Fraction(3, 2)), ('-0.0', Fraction(0)), ('-7', Fraction(-7)), ('-1e-2', Fraction(-1, 100))]:
         cases.append(('dn%d' % k, 'rational("%s")' % txt, show_frac(q), dict(text=txt, what='rational(s) keeps the sign')))
+        k += 1
+    for txt, q in [('.0', Fraction(0)), ('-.0', Fraction(0)), ('.0e5', Fraction(0)), ('.00e-3', Fraction(0)), ('.0/7', Fraction(0)), ('.50', Fraction(1, 2)), ('0.', Fraction(0)),
+                   ('-.250e1', Fraction(-5, 2)), ('1.0/4.00', Fraction(1, 4)), ('00.10', Fraction(1, 10)), ('5.', Fraction(5)), ('.5e1', Fraction(5)), ('0.0', Fraction(0)), ('10.0', Fraction(10))]:
+        cases.append(('dz%d' % k, 'rational("%s")' % txt, show_frac(q), dict(text=txt, what='rational(s): missing integer digits, trailing zeros')))
         k += 1
     for txt, q in [('1.5', Fraction(3, 2)), ('3/4', Fraction(3, 4)), ('2e3', Fraction(2000)), ('0.125', Fraction(1, 8)), ('10', Fraction(10)), ('1.5e-2', Fraction(3, 200))]:
         cases.append(('q%d' % k, 'rational("%s")' % txt, show_frac(q), dict(text=txt, what='rational(s)')))
@@ -1447,6 +1478,20 @@ def suite_C14():
     for lo, hi in itertools.product(range(0, 13), repeat=2):
         cases.append(('ux%d' % k, '"na\u00efve caf\u00e9"[%d:%d]' % (lo, hi), None, dict(what='string slice at arbitrary byte offsets', lo=lo, hi=hi)))
         k += 1
+    for i in range(-13, 13):
+        for rep in ['"i"', '"\u00e9"', '"xy"', '""', '7']:
+            cases.append(('ua%d' % k, '(\\ -> (vt := "na\u00efve caf\u00e9"; vt[%s] = %s; vt))()' % (lit(i), rep), None, dict(what='string index assignment at arbitrary byte offsets', index=i, replacement=rep)))
+            k += 1
+    import random as _rnd
+    rg = _rnd.Random(20260923)
+    for size in [5, 20, 21, 22, 25, 32, 40, 64]:
+        for trial in range(6):
+            xs = [str(rg.randrange(-50, 50)) for _ in range(size)]
+            xs[rg.randrange(size)] = ['(0.0/0.0)', '"s"', 'null', '[1]'][trial % 4]
+            lst = '[%s]' % ', '.join(xs)
+            for f in ['sort(%s)', '%s sort_on (\\x -> x)', 'max(%s)', 'min(%s)', '%s sort (\\a, b -> a <=> b)', 'unique(%s)', 'sort(reverse(%s))']:
+                cases.append(('so%d' % k, f % lst, None, dict(what='ordering functions on a long list with one incomparable element', size=size, f=f)))
+                k += 1
     for i in range(-13, 13):
         cases.append(('uy%d' % k, '"na\u00efve caf\u00e9"[%s]' % lit(i), None, dict(what='string index at arbitrary byte offsets', index=i)))
         k += 1
